@@ -485,6 +485,37 @@ def r7(ctx):
             ctx.ok(rule, "Vec#elements", detail)
 
 
+def r8(ctx):
+    rule = "C17.R8"
+    ctx.rule(rule, "the root flag is consumed: a ProtobufWriter method that looks at `is_root` and then hands the writer to nested "
+                   "content (the closure of a SEQUENCE/SET, Constraint::write_content of a CHOICE) has cleared the flag with "
+                   "mem::take / mem::replace on a block dominating that hand-over - otherwise the nested message is written as if it "
+                   "were the root: without its tag and length, and it reads back as another field")
+    P = ctx.program()
+    n = 0
+    for b in P.lib_bodies("asn1rs"):
+        if "proto_write" not in b.file or b.def_kind != "AssocFn" or "ProtobufWriter" not in b.path:
+            continue
+        O = X.Origins(b, P)
+        nested = [cs for cs in b.calls() if cs.name in ("write_content", "write_seq", "write_set")
+                  or (cs.trait or "").split("::")[-1] in ("Fn", "FnOnce", "FnMut")]
+        takes = [cs for cs in b.calls() if cs.name in ("take", "replace") and "is_root" in F.rd(O.call_args(cs)[0])]
+        reads = [bb for bb, j, st in b.all_statements() if st["k"] == "assign" and st["rv"]["k"] == "use"
+                 and st["rv"]["op"].get("k") in ("copy", "move") and any(p.get("n") == "is_root" for p in st["rv"]["op"]["pl"]["p"])]
+        if not nested or not (takes or reads):
+            continue
+        n += 1
+        late = [c for c in nested if not any(t.target is not None and (t.target == c.bb or b.dominates(t.target, c.bb)) for t in takes)]
+        detail = {"function": b.path, "nested_hand_overs": [c.loc() for c in nested], "flag_cleared_at": [t.loc() for t in takes],
+                  "plain_reads_of_is_root": len(reads)}
+        if late:
+            ctx.fail(rule, b.name, "%s decides on is_root but hands the writer to nested content at %s while the flag is still set"
+                     % (b.name, late[0].loc()), late[0].loc(), detail)
+        else:
+            ctx.ok(rule, b.name, detail)
+    ctx.floor(rule, n, "C17.R8.containers")
+
+
 def run(ctx):
     r1(ctx)
     r2(ctx)
@@ -493,3 +524,4 @@ def run(ctx):
     r5(ctx)
     r6(ctx)
     r7(ctx)
+    r8(ctx)
